@@ -151,7 +151,8 @@ def replay_ops(R, exe, runner, ops, tag="rp"):
 def shrink(R, exe, runner, ops, which):
     """delta-debug the event list: keep case/node/chk lines, drop ev lines while the same oracle still fails
     (a check that is no longer justified by enough rounds is rejected by the runner and does not count)"""
-    fixed = [(k, l) for k, l in enumerate(ops) if not l.startswith("ev ")]
+    last_chk = max(k for k, l in enumerate(ops) if l.startswith("chk"))
+    fixed = [(k, l) for k, l in enumerate(ops) if not l.startswith("ev ") and (not l.startswith("chk") or k == last_chk)]
     evs = [(k, l) for k, l in enumerate(ops) if l.startswith("ev ")]
     # only the last check matters
     def build(sub):
@@ -178,7 +179,7 @@ def replay(R, path):
     if not (ok and ok2):
         print("build failed", (log or "")[-500:], (log2 or "")[-500:]); return 2
     out = replay_ops(R, exe, runner, ops, "replay")
-    bad = [l for l in out.split("\n") if l.startswith(("ORACLE", "DIVERGE", "HARNESSCRASH"))]
+    bad = [l for l in out.split("\n") if l.startswith(("ORACLE", "HARNESSCRASH"))] + [l for l in out.split("\n") if l.startswith("DIVERGE")]
     print("\n".join(ops[-40:]))
     print("---- result of replaying %d lines on the current tree ----" % len(ops))
     print("\n".join(l[:600] for l in bad[:10]) if bad else "no failure reproduced")
@@ -216,6 +217,23 @@ def run(R):
                           "bring-up, fair rounds (random permutations with repetitions), 2-3 fault phases (link/router loss and re-addition in random order, partial rounds) "
                           "each followed by INF+maxdist+1 fair rounds and the convergence oracle; every event is replayed on the extracted model and the whole RIB compared. "
                           "non-trivial = at least 3 event kinds and some router learnt a remote destination; distinct by SHA-1 of the event list")
+    # corpus first: minimised histories kept from earlier failures (mutation trials)
+    cdir = os.path.join(vlib.VERIF, "corpus", "C18")
+    ncorp = 0
+    for f in sorted(glob.glob(os.path.join(cdir, "*.ops"))):
+        ops = [l for l in open(f).read().split("\n") if l]
+        out = replay_ops(R, exe, runner, ops, "corpus")
+        ncorp += 1
+        for l in out.split("\n"):
+            if l.startswith("ORACLE"):
+                p = l.split(" ", 4)
+                R.oracle_failure("corpus:%s:%s" % (os.path.basename(f), p[3]), "corpus history %s fails the spec oracle %s" % (os.path.basename(f), p[3]),
+                                 dict(detail=(p[4] if len(p) > 4 else "")[:3000], ops=ops))
+            elif l.startswith("DIVERGE"):
+                R.divergence("model and implementation disagree on corpus history %s: %s" % (os.path.basename(f), l[:300]), dict(ops=ops))
+            elif l.startswith(("BADCHK", "BADLINE", "HARNESSCRASH")):
+                R.proof_problems.append("corpus history %s: %s" % (os.path.basename(f), l[:300]))
+    R.coverage.setdefault("distribution", {})["corpus_histories"] = ncorp
     runs = [(120, R.seed, False, "")] if R.quick else [(0, R.seed, True, "-all"), (1500, R.seed + 1, False, "-rand")]
     for n, seed, exh, tag in runs:
         trace = run_harness(R, exe, n, seed, exh, tag)
